@@ -9,6 +9,7 @@ import (
 	"context"
 	"io"
 	"net/http"
+	"strings"
 
 	"cuelabs.dev/go/oci/ociregistry"
 	"cuelabs.dev/go/oci/ociregistry/ociclient"
@@ -49,7 +50,11 @@ func c18mutate(resp *http.Response) {
 	case 4:
 		resp.ContentLength = []int64{-1, 0, 1, 7, 131072, 131073, 1 << 62, -5}[verifChoose("contentLength", 8)]
 	case 5:
-		set("Docker-Content-Digest", []string{"", "sha256:bad", "sha256:" + "0000000000000000000000000000000000000000000000000000000000000000"})
+		// (incl. well-formed digests of algorithms that are not linked in, and of another
+		// available algorithm)
+		set("Docker-Content-Digest", []string{"", "sha256:bad", "sha256:" + "0000000000000000000000000000000000000000000000000000000000000000",
+			"sha1:" + "aaf4c61ddcc5e8a2dabede0f3b482cd9aea9434d", "md5:" + "5d41402abc4b2a76b9719d911017c592",
+			"sha512:" + strings.Repeat("0", 128), "blake3:" + strings.Repeat("1", 64), "sha256+b64:" + strings.Repeat("a", 43)})
 	case 6:
 		set("Link", []string{"", `</v2/_catalog?n=1&last=a>;rel="next"`, "garbage", "<", "<x", `<%zz>`, `<>`})
 	case 7:
